@@ -72,3 +72,10 @@ Example C03_listed_names_invalid :
     [ []; str "../other/eve"; str "x/../bob"; str "/etc/passwd"; str "-x"; str ".x"; str "_x"; str "@x";
       str "a b"; str "bob" ++ [10]; str "b" ++ [0] ++ str "b"; str ".."; [255] ] = true.
 Proof. exact invalid_examples. Qed.
+
+(* ---- the model's state space is the code's declared state ----
+   (theories/StateInst.v: package-level variables and struct fields listed by tools/facts on every
+   run; the models keep no state between operations other than these components) *)
+From Whawty Require StateInst.
+Theorem C03_store_state_inventory : StateInst.store_state_inventory.
+Proof. exact StateInst.store_state_inventory_holds. Qed.
